@@ -154,7 +154,7 @@ class InbandEventStream(EventStreamBase):
     An EventStream, where events are carried in the media
     """
     async def validate(self, depth: int = -1) -> None:
-        await super().validate(depth)
+        await super().validate()
         self.elt.check_equal(
             len(self._children), 0,
             msg='Event elements are not allowed in an inband EventStream element')
